@@ -479,6 +479,80 @@ theorem C20_jit (arch : Arch) (entries : List JitEntry) (fileLen : Nat) (sym : O
       split <;> simp_all
 
 
+/-- **JITDUMP, bytes clause.** With the decoder as a function of bytes and `file` the dump: every row of a
+listing is the decoder's verdict on the dump's bytes from the row's position to the end of what was read, all of
+it inside the code bytes of one `JIT_CODE_LOAD` record (`fo + n ≤ e.codeOff + e.codeLen`); `.byte` rows show the
+dump's bytes at their position; no panic, no fuel exhaustion; only hypothesis: `ByteDecOK`. -/
+theorem C20_jit_bytes (arch : Arch) (entries : List JitEntry) (sym : Option Sym) (req : Req) (D : ByteDec)
+    (file : List UInt8) (hD : ByteDecOK arch.adjust D) :
+    (∀ rel fo n items size, queryJitB arch entries sym req D file = some (.resp rel fo n items size) →
+        rel = alignStart arch req.start ∧
+        (∃ e ∈ entries, e.relAddr ≤ rel ∧ rel < e.relAddr + e.codeLen ∧
+            fo = e.codeOff + (rel - e.relAddr) ∧ fo + n ≤ e.codeOff + e.codeLen) ∧
+        fo + n ≤ file.length ∧ size ≤ n ∧
+        (∀ it ∈ items,
+          (it.inv = false → ∃ len, D (fileBytes file (fo + it.off) (n - it.off)) = .ok len ∧
+              1 ≤ len ∧ it.off + len ≤ n) ∧
+          (it.inv = true → D (fileBytes file (fo + it.off) (n - it.off)) = .invalid ∧
+              it.off + arch.adjust ≤ n ∧
+              shown (fileBytes file fo n) arch.adjust it.off = fileBytes file (fo + it.off) arch.adjust)) ∧
+        (specLen req (fnEnd sym) ≤ size ∨ D (fileBytes file (fo + size) (n - size)) = .exhausted)) ∧
+    queryJitB arch entries sym req D file ≠ some .nofuel ∧
+    queryJitB arch entries sym req D file ≠ some .panic := by
+  have hadj := adjust_pos arch
+  have hlen := disasmLen_eq_specLen req (fnEnd sym)
+  have key : ∀ fo n, readJit entries file.length (alignStart arch req.start)
+        (readSize (specLen req (fnEnd sym))) = .ok fo n →
+      (fun p => match readJit entries file.length (alignStart arch req.start)
+            (readSize (disasmLen req.start req.size req.cont (fnEnd sym))) with
+        | .ok fo n => decAt D (fileBytes file fo n) p
+        | _ => .exhausted) = decAt D (fileBytes file fo n) := by
+    intro fo n h
+    funext p
+    rw [hlen, h]
+  have hor : ∀ fo n, readJit entries file.length (alignStart arch req.start)
+        (readSize (specLen req (fnEnd sym))) = .ok fo n →
+      OracleOK n (fun p => match readJit entries file.length (alignStart arch req.start)
+            (readSize (disasmLen req.start req.size req.cont (fnEnd sym))) with
+        | .ok fo n => decAt D (fileBytes file fo n) p
+        | _ => .exhausted) ∧
+      OracleTail arch.adjust n (fun p => match readJit entries file.length (alignStart arch req.start)
+            (readSize (disasmLen req.start req.size req.cont (fnEnd sym))) with
+        | .ok fo n => decAt D (fileBytes file fo n) p
+        | _ => .exhausted) := by
+    intro fo n h
+    rw [key fo n h]
+    obtain ⟨_, _, _, _, _, _, _, hfl⟩ := readJit_ok h
+    have := decAt_oracle hadj hD (fileBytes file fo n)
+    rwa [fileBytes_length hfl] at this
+  obtain ⟨hq1, hq2, hq3⟩ := C20_jit arch entries file.length sym req _ hor
+  refine ⟨?_, hq2, hq3⟩
+  intro rel fo n items size hq
+  -- the read result, from the definition
+  have hq' := hq
+  unfold queryJitB queryJit at hq'
+  simp only [hlen] at hq'
+  split at hq' <;> try (simp at hq'; done)
+  rename_i fo' n' hrd
+  split at hq'
+  · simp at hq'
+  · split at hq' <;> try (simp at hq'; done)
+    rename_i items' f' hd
+    simp only [Option.some.injEq, Outcome.resp.injEq] at hq'
+    obtain ⟨rfl, rfl, rfl, rfl, rfl⟩ := hq'
+    obtain ⟨e, hmem, hle, hlt, hfo, _, hin, hfl⟩ := readJit_ok hrd
+    simp only [hrd] at hd
+    obtain ⟨_, hf, hrows, hcomp⟩ := decode_file_rows hD hadj hfl hd
+    exact ⟨rfl, ⟨e, hmem, hle, hlt, hfo, hin⟩, hfl, hf, hrows, hcomp⟩
+
+/-- **Fat archive members.** The bytes of a member are the file's bytes from the member's start
+(`MachOFatArchiveMemberData::data()`, macho.rs:495-498), so a range `(fo, n)` read inside a member of size `msize`
+starting at `mstart` is the file range `(mstart + fo, n)`: every statement of `C20_query_bytes` about
+`fileBytes (memberData file mstart msize) …` is a statement about the archive file's bytes at `mstart + …`. -/
+theorem C20_fat_member (file : List UInt8) (mstart msize fo n : Nat) (h : fo + n ≤ msize) :
+    fileBytes (memberData file mstart msize) fo n = fileBytes file (mstart + fo) n :=
+  fileBytes_fileBytes file mstart msize fo n h
+
 /-! ### The repaired defect (2d669439): the pre-fix `size` came from the re-created reader -/
 
 /-- x86-like oracle on a 21-byte slice: a 2-byte instruction, then one undecodable byte, then 1-byte
@@ -580,3 +654,9 @@ example : queryJit .arm [⟨0, 0x100, 8⟩, ⟨8, 0x200, 14⟩] 0x300 (some ⟨8
 example : archOfName (some "arm64e") = .a64 ∧ archOfName (some "x86_64h") = .x64 ∧
     archOfName (some "arm64v8") = .unknown ∧ archOfName (some "i386") = .unknown := by
   simp [archOfName]
+
+/-- the same bytes as one `JIT_CODE_LOAD` record of a dump, byte-level decoder -/
+example : queryJitB .arm [⟨0, 0x20, 10⟩] none ⟨1, 9, false⟩ C20_byteDec C20_file
+    = some (.resp 0 0x20 10 [⟨0, false⟩, ⟨2, false⟩, ⟨6, true⟩, ⟨8, false⟩] 10) := by decide +kernel
+
+example : fileBytes (memberData C20_file 0x20 10) 2 4 = [0xf0, 0x00, 0x00, 0xf8] := by decide +kernel
